@@ -2,6 +2,7 @@ _LIBS = ["network", "eventx", "event", "util", "base"]
 TARGETS = {
     "c15_reply_fuzz": {"src": "C15/reply_parser.cpp", "variant": "asan", "engine": "fuzz", "libs": _LIBS},
     "c15_reply_rc":   {"src": "C15/reply_parser.cpp", "variant": "asan", "engine": "rc", "libs": _LIBS},
+    "c15_lifecycle_rc": {"src": "C15/lookup_lifecycle.cpp", "variant": "asan", "engine": "rc", "libs": _LIBS},
 }
 PROP = {
     "subchecks": [
